@@ -2,7 +2,7 @@ SPECIFICATION Spec
 CONSTANTS
   MaxLen = 3
   Srcs = {"ready_val", "ready_exc", "after_val", "after_err", "run_val", "sched_val", "task_val"}
-  Atts = {"inline", "e1", "inh"}
+  Atts = {"inline", "e1"}
   Args = {"V", "E", "X", "R"}
   Behs = {"val", "throw", "throw_re", "res_err", "fut_pending", "shared_pending", "task_sched", "task_contract"}
   Rejects = {9}
